@@ -42,6 +42,7 @@ type Exec struct {
 	callSeen  map[string]bool
 	topLets   map[string]Val
 	curTag    string
+	atTags    map[string]bool
 	curSite   ssa.Instruction
 	curCallFrame *Frame
 	curCallArgs  []Val
